@@ -67,6 +67,11 @@ func main() {
 		m := fw.Get(os.Args[2])
 		r := fw.RunCase(m, os.Args[3], seed, idx)
 		fmt.Println(fw.JSON(r))
+	case "racestress":
+		seed, _ := strconv.ParseInt(os.Args[2], 10, 64)
+		blocks, _ := strconv.Atoi(os.Args[3])
+		b, q := mon.RaceStress(seed, blocks)
+		fmt.Printf("racestress blocks=%d queries=%d\n", b, q)
 	case "replaylog":
 		b, err := os.ReadFile(os.Args[2])
 		if err != nil {
